@@ -343,7 +343,45 @@ def run_shard(pid, seed, shard, ncases, tier, extra):
         rng = case_rng(PID + "/coupler", seed, shard, k)
         for key, what, cs in coupler_cases(rng, hist):
             findings.append(Finding("monitor", key, what, cs))
-    return {"evaluations": len(cases), "nontrivial": nontrivial, "model_lines": len(lines), "findings": findings,
+    # ---- extended streams (c17x): exception classes, oracles, penalty objects, couplers with arguments
+    import c17x
+    xcases = []
+    for stream, cnt in (("xcomb", ncases), ("oracle", max(1, ncases // 2)), ("pen", max(1, ncases // 2)),
+                        ("cpl", max(1, ncases // 4))):
+        for k in range(cnt):
+            rng = case_rng(PID + "/" + stream, seed, shard, k)
+            cs = c17x.GEN[stream](rng, hist)
+            if cs is not None:
+                xcases.append(cs)
+    xreplies = leandrv.run_driver([cs["line"] for cs in xcases])
+    xn = 0
+    for cs, rep in zip(xcases, xreplies):
+        if c17x.CHECK[cs["stream"]](cs, rep, findings, hist):
+            xn += 1
+    # ---- agreement of the two models on the old stream: the extended model, run on the same requests
+    alines = []
+    for (kind, members, cap, x, obs, flavour) in cases:
+        ms = " ".join("(g none %s)" % dsl.con_sexp(m) for m in members)
+        ds, _ = c17x.draw_groups([(t, v, 0) for t, v in obs["draws"]], "or") if kind == "or" else (None, 0)
+        if kind == "or":
+            alines.append("C17 xor (cap %d) (x %s) (members (%s)) (draws %s)" % (cap * len(members), fl(x), ms, ds))
+        else:
+            old = request_line(kind, members, cap, x, obs["draws"])
+            alines.append(old.replace("C17 and ", "C17 xand ", 1).replace("C17 not ", "C17 xnot ", 1)
+                          .replace("(members (%s))" % " ".join(dsl.con_sexp(m) for m in members), "(members (%s))" % ms)
+                          .replace("(member %s)" % (dsl.con_sexp(members[0]) if members else ""), "(member %s)" % ms))
+    areplies = leandrv.run_driver(alines)
+    for (kind, members, cap, x, obs, flavour), old, new, al in zip(cases, replies, areplies, alines):
+        ro = parse_reply(old); rn = parse_reply(new)
+        same = ro[0] == rn[0] == "ok" and ro[2] == rn[2] and all(
+            ro[1].get(k) == rn[1].get(k) for k in (("y", "calls", "draws", "links") + (() if kind == "not" else ("t",))))
+        hist["agree:%s" % kind] = hist.get("agree:%s" % kind, 0) + 1
+        if not same:
+            findings.append(Finding("correspondence", "%s_/models-disagree" % kind,
+                                    "Model/Combinators replied %r, Model/CombinatorsX %r" % (old, new),
+                                    {"request": al, "old": old, "new": new}))
+    return {"evaluations": len(cases) + len(xcases), "nontrivial": nontrivial + xn,
+            "model_lines": len(lines) + len(xcases) + len(alines), "findings": findings,
             "samples": samples, "hist": hist}
 
 
